@@ -95,9 +95,6 @@ func stringToInt(ss string) (int64, error) {
 	if ss == "" {
 		return 0, nil
 	}
-	if ss == "-0" {
-		return 0, strconv.ErrSyntax
-	}
 	if len(ss) > 2 {
 		switch ss[:2] {
 		case "0x", "0X":
@@ -108,7 +105,12 @@ func stringToInt(ss string) (int64, error) {
 			return strconv.ParseInt(ss[2:], 8, 64)
 		}
 	}
-	return strconv.ParseInt(ss, 10, 64)
+	i, err := strconv.ParseInt(ss, 10, 64)
+	if i == 0 && err == nil && ss[0] == '-' {
+		// "-0", "-00", ...: negative zero is not an integer value
+		return 0, strconv.ErrSyntax
+	}
+	return i, err
 }
 
 func (s asciiString) _toInt(trimmed string) (int64, error) {
